@@ -1263,93 +1263,96 @@ def runTmpl (g : GEnv) : Nat → Registry.Tmpl → Run
   would panic inside the deferred handler and the panic would escape `Execute`.  `Registry.add` rejects
   duplicate template names, so `src` is the text of the template's own file and every position the
   parser assigned lies inside it.  The model keeps the obligation explicit: `posOk t` says every node
-  of the template lies within its source, and `execute` turns an error into `panic` when it does not
+  the walk can be at (`posBlock`: expression, command, list, raw-text and html-tag nodes — the only
+  positions `s.node` takes, Lemmas/EvalPos.lean) lies within its source, and `execute` turns an error into `panic` when it does not
   hold (a conservative over-approximation: Go panics only if the one node at fault is out of range). -/
 
 mutual
-def maxPosE : Expr → Nat
-  | .null p | .bool p _ | .int p _ | .float p _ | .str p _ _ | .global p _ => p
-  | .func p _ args => max p (maxPosEs args)
-  | .list p items => max p (maxPosEs items)
-  | .map p items => max p (maxPosM items)
-  | .dataRef p _ acc => max p (maxPosA acc)
-  | .not p a => max p (maxPosE a)
-  | .neg p a => max p (maxPosE a)
-  | .bin _ p a b => max p (max (maxPosE a) (maxPosE b))
-  | .tern p c a b => max p (max (maxPosE c) (max (maxPosE a) (maxPosE b)))
-def maxPosEs : ExprList → Nat
-  | .nil => 0
-  | .cons e r => max (maxPosE e) (maxPosEs r)
-def maxPosM : MapItems → Nat
-  | .nil => 0
-  | .cons _ e r => max (maxPosE e) (maxPosM r)
-def maxPosA : AccessList → Nat
-  | .nil => 0
-  | .cons (.key p _ _) r => max p (maxPosA r)
-  | .cons (.index p _ _) r => max p (maxPosA r)
-  | .cons (.expr p _ e) r => max p (max (maxPosE e) (maxPosA r))
+def posE : Expr → List Nat
+  | .null p | .bool p _ | .int p _ | .float p _ | .str p _ _ | .global p _ => [p]
+  | .func p _ args => p :: posEs args
+  | .list p items => p :: posEs items
+  | .map p items => p :: posM items
+  | .dataRef p _ acc => p :: posA acc
+  | .not p a => p :: posE a
+  | .neg p a => p :: posE a
+  | .bin _ p a b => p :: (posE a ++ posE b)
+  | .tern p c a b => p :: (posE c ++ (posE a ++ posE b))
+def posEs : ExprList → List Nat
+  | .nil => []
+  | .cons e r => posE e ++ posEs r
+def posM : MapItems → List Nat
+  | .nil => []
+  | .cons _ e r => posE e ++ posM r
+def posA : AccessList → List Nat
+  | .nil => []
+  | .cons (.key _ _ _) r => posA r
+  | .cons (.index _ _ _) r => posA r
+  | .cons (.expr _ _ e) r => posE e ++ posA r
 end
 
-def maxPosOpt : Option Expr → Nat
-  | none => 0
-  | some e => maxPosE e
 
-def maxPosList : List Expr → Nat
-  | [] => 0
-  | e :: r => max (maxPosE e) (maxPosList r)
+def posOpt : Option Expr → List Nat
+  | none => []
+  | some e => posE e
 
-def maxPosDirs : List Directive → Nat
-  | [] => 0
-  | d :: r => max d.pos (max (maxPosList d.args) (maxPosDirs r))
+def posList : List Expr → List Nat
+  | [] => []
+  | e :: r => posE e ++ posList r
+
+def posDirs : List Directive → List Nat
+  | [] => []
+  | d :: r => posList d.args ++ posDirs r
 
 mutual
-def maxPosCmd : Cmd → Nat
-  | .rawText p _ => p
-  | .print p a dirs => max p (max (maxPosE a) (maxPosDirs dirs))
-  | .msg p _ _ _ bp body => max p (max bp (maxPosParts body))
-  | .css p e _ => max p (maxPosOpt e)
-  | .debugger p => p
-  | .log p b => max p (maxPosBlock b)
-  | .ifc p conds => max p (maxPosConds conds)
-  | .forc p _ l b ie => max p (max (maxPosE l) (max (maxPosBlock b) (match ie with | some b' => maxPosBlock b' | none => 0)))
-  | .switch p v cases => max p (max (maxPosE v) (maxPosCases cases))
-  | .call p _ _ d ps => max p (max (maxPosOpt d) (maxPosParams ps))
-  | .letValue p _ e => max p (maxPosE e)
-  | .letContent p _ b => max p (maxPosBlock b)
-  | .headerParam p _ _ tp _ d => max p (max tp (maxPosOpt d))
-  | .namespace p _ _ => p
-  | .template p _ b _ _ => max p (maxPosBlock b)
-  | .soyDoc p _ => p
-def maxPosBlock : Block → Nat
-  | .mk p cmds => max p (maxPosCmds cmds)
-def maxPosCmds : CmdList → Nat
-  | .nil => 0
-  | .cons c r => max (maxPosCmd c) (maxPosCmds r)
-def maxPosConds : CondList → Nat
-  | .nil => 0
-  | .cons p c b r => max p (max (maxPosOpt c) (max (maxPosBlock b) (maxPosConds r)))
-def maxPosCases : CaseList → Nat
-  | .nil => 0
-  | .cons p vs b r => max p (max (maxPosList vs) (max (maxPosBlock b) (maxPosCases r)))
-def maxPosParams : ParamList → Nat
-  | .nil => 0
-  | .value p _ e r => max p (max (maxPosE e) (maxPosParams r))
-  | .content p _ b r => max p (max (maxPosBlock b) (maxPosParams r))
-def maxPosParts : MsgParts → Nat
-  | .nil => 0
-  | .text p _ r => max p (maxPosParts r)
-  | .ph p _ b r => max p (max (maxPosPh b) (maxPosParts r))
-  | .plural p _ v cases dp d r => max p (max (maxPosE v) (max (maxPosPl cases) (max dp (max (maxPosParts d) (maxPosParts r)))))
-def maxPosPh : MsgPhBody → Nat
-  | .htmlTag p _ => p
-  | .cmd c => maxPosCmd c
-def maxPosPl : PluralCases → Nat
-  | .nil => 0
-  | .cons p _ bp b r => max p (max bp (max (maxPosParts b) (maxPosPl r)))
+def posCmd : Cmd → List Nat
+  | .rawText p _ => [p]
+  | .print p a dirs => p :: (posE a ++ posDirs dirs)
+  | .msg p _ _ _ _ body => p :: posParts body
+  | .css p e _ => p :: posOpt e
+  | .debugger p => [p]
+  | .log p b => p :: posBlock b
+  | .ifc p conds => p :: posConds conds
+  | .forc p _ l b ie => p :: (posE l ++ (posBlock b ++ (match ie with | some b' => posBlock b' | none => [])))
+  | .switch p v cases => p :: (posE v ++ posCases cases)
+  | .call p _ _ d ps => p :: (posOpt d ++ posParams ps)
+  | .letValue p _ e => p :: posE e
+  | .letContent p _ b => p :: posBlock b
+  | .headerParam p _ _ _ _ _ => [p]
+  | .namespace p _ _ => [p]
+  | .template p _ _ _ _ => [p]
+  | .soyDoc p _ => [p]
+def posBlock : Block → List Nat
+  | .mk p cmds => p :: posCmds cmds
+def posCmds : CmdList → List Nat
+  | .nil => []
+  | .cons c r => posCmd c ++ posCmds r
+def posConds : CondList → List Nat
+  | .nil => []
+  | .cons _ c b r => posOpt c ++ (posBlock b ++ posConds r)
+def posCases : CaseList → List Nat
+  | .nil => []
+  | .cons _ vs b r => posList vs ++ (posBlock b ++ posCases r)
+def posParams : ParamList → List Nat
+  | .nil => []
+  | .value _ _ e r => posE e ++ posParams r
+  | .content _ _ b r => posBlock b ++ posParams r
+def posParts : MsgParts → List Nat
+  | .nil => []
+  | .text p _ r => p :: posParts r
+  | .ph _ _ b r => posPh b ++ posParts r
+  | .plural _ _ v cases _ d r => posE v ++ (posPl cases ++ (posParts d ++ posParts r))
+def posPh : MsgPhBody → List Nat
+  | .htmlTag p _ => [p]
+  | .cmd c => posCmd c
+def posPl : PluralCases → List Nat
+  | .nil => []
+  | .cons _ _ _ b r => posParts b ++ posPl r
 end
 
+
 /-- every node of the template lies within the source registered under its name -/
-def posOk (t : Registry.Tmpl) : Bool := max t.pos (maxPosBlock t.body) ≤ t.text.length
+def posOk (t : Registry.Tmpl) : Bool := (t.pos :: posBlock t.body).all fun p => decide (p ≤ t.text.length)
 
 /-! ## Entry points -/
 
